@@ -3,6 +3,7 @@ package props
 import (
 	"bytes"
 	"fmt"
+	"io"
 	"math/rand"
 	"reflect"
 	"runtime"
@@ -162,6 +163,8 @@ var c11model = porcupine.Model{
 		return fmt.Sprintf("read(%s)->%v", e.Key, out)
 	},
 }
+
+func c11wait(wg *sync.WaitGroup, done chan struct{}) { wg.Wait(); close(done) }
 
 func c11n(tier string) int {
 	if tier == "thorough" {
@@ -452,7 +455,86 @@ func c11run(c *fw.Ctx, idx int) {
 			mu.Unlock()
 		}(g)
 	}
-	wg.Wait()
+	// wait for the round; a round whose goroutines are all parked on jet's own locks will never end (see c11blocked)
+	await := func(wg *sync.WaitGroup, n int) bool {
+		finished := make(chan struct{})
+		go c11wait(wg, finished)
+		for {
+			select {
+			case <-finished:
+				return true
+			case <-time.After(10 * time.Second):
+				if stack, k := c11blocked(); k > 0 {
+					c.Count("deadlocked_rounds", 1)
+					c.Violation("c11:deadlock", "", map[string]interface{}{"goroutines_parked_on_locks_inside_jet": k, "nothing_else_running_of": n, "first_stack": stack})
+					return false
+				}
+			}
+		}
+	}
+	if !await(&wg, goroutines) {
+		return
+	}
+	// loader storm: lookups on the development-mode Set (every one goes to the loader: Exists, then Open) against edits of
+	// other entries of the same loader in tight loops, no yields: the interleavings inside the loader's own critical sections
+	{
+		devInner.Set("/stormfixed.jet", "storm {{ 1 + 1 }}")
+		var swg sync.WaitGroup
+		var smu sync.Mutex
+		lookups := 0
+		iters := 300
+		if c.Tier == "thorough" {
+			iters = 1500
+		}
+		for g := 0; g < 12; g++ {
+			swg.Add(1)
+			go func(g int) {
+				defer swg.Done()
+				for i := 0; i < iters; i++ {
+					if g%3 == 2 {
+						p := fmt.Sprintf("/storm/e%d.jet", (g+i)%5)
+						if i%2 == 0 {
+							devInner.Set(p, "edit")
+						} else {
+							devInner.Delete(p)
+						}
+						continue
+					}
+					var out string
+					if g%3 == 0 {
+						t, err := devSet.GetTemplate("/stormfixed.jet")
+						if err != nil {
+							out = "ERROR " + err.Error()
+						} else {
+							out = c11exec(t, "S")
+						}
+					} else if devInner.Exists("/stormfixed.jet") {
+						rc, err := devInner.Open("/stormfixed.jet")
+						if err != nil {
+							out = "ERROR " + err.Error()
+						} else {
+							b, _ := io.ReadAll(rc)
+							rc.Close()
+							out = strings.Replace(string(b), "{{ 1 + 1 }}", "2", 1)
+						}
+					} else {
+						out = "ERROR Exists reports false"
+					}
+					smu.Lock()
+					lookups++
+					if out != "storm 2" && len(mismatches) < 20 {
+						mismatches = append(mismatches, fmt.Sprintf("loader storm: /stormfixed.jet (never edited) gave %q", out))
+					}
+					smu.Unlock()
+				}
+			}(g)
+		}
+		if !await(&swg, 12) {
+			return
+		}
+		c.Count("op:storm-lookup", lookups)
+		c.Eval(lookups)
+	}
 	for k, v := range counts {
 		c.Count("op:"+k, v)
 		c.Eval(v)
